@@ -120,6 +120,27 @@ pub fn exec(case: &Value, out: &mut Out) {
             let p = |p: &Polynomial<Cmplx>| coeffs(p).into_iter().map(|x| (x.real, x.imag)).collect::<Vec<(f64, f64)>>();
             float_event(case, "cx", &p(&u), &p(&v), r.map(|x| x.map(|(q, r)| (p(&q), p(&r)))), out);
         }
+        "cxg" => {
+            // Complex<f64> with Gaussian-integer data and a divisor whose leading coefficient is a unit (1, -1, i, -i): every
+            // intermediate is a Gaussian integer, exact in f64 -> logged as integers and checked exactly by TLC
+            let mk = |re: &Value, im: &Value| -> Polynomial<Cmplx> { let (a, b) = (ivec(re), ivec(im)); Polynomial::new(a.iter().enumerate().map(|(k, x)| Cmplx::new(*x as f64, b.get(k).cloned().unwrap_or(0) as f64)).collect()) };
+            let (u, v) = (mk(&case["u"], &case["ui"]), mk(&case["v"], &case["vi"]));
+            let r: DivOut<Cmplx> = guarded(|| u.polydiv(&v));
+            let gi = |x: f64| -> Option<i64> { if x.is_finite() && x == x.trunc() && x.abs() < NMAX as f64 { Some(x as i64) } else { None } };
+            let pad = |v: &Value, n: usize| -> Value { let mut a = ivec(v); a.resize(n, 0); json!(a) };
+            let mut e = json!({"op": "polydiv", "kind": "gexact", "ty": "cxg", "cid": geti(case, "cid"), "u": pad(&case["u"], u.size()), "ui": pad(&case["ui"], u.size()),
+                               "v": pad(&case["v"], v.size()), "vi": pad(&case["vi"], v.size()), "panic": false, "ok": false, "fits": true, "q": [], "qi": [], "r": [], "ri": [], "err": ""});
+            match r {
+                Err(_) => e["panic"] = json!(true),
+                Ok(Err(m)) => e["err"] = json!(m),
+                Ok(Ok((q, r))) => {
+                    e["ok"] = json!(true);
+                    let parts = |p: &Polynomial<Cmplx>| -> Option<(Vec<i64>, Vec<i64>)> { let mut a = vec![]; let mut b = vec![]; for c in coeffs(p) { a.push(gi(c.real)?); b.push(gi(c.imag)?); } Some((a, b)) };
+                    match (parts(&q), parts(&r)) { (Some(q), Some(r)) => { e["q"] = json!(q.0); e["qi"] = json!(q.1); e["r"] = json!(r.0); e["ri"] = json!(r.1); } _ => e["fits"] = json!(false) }
+                }
+            }
+            out.ev(e);
+        }
         t => { eprintln!("TOOL-ERROR unknown type {}", t); std::process::exit(2) }
     }
 }
@@ -204,4 +225,106 @@ pub fn gen(tier: &str, seed: u64, out: &mut Out) {
             push(out, json!({"ty": "cx", "u": hexvec(&u), "ui": hexvec(&ui), "v": hexvec(&v), "vi": hexvec(&vi)}));
         }
     }
+    gen_special(quick, &mut rng, out, &mut push);
+}
+
+// ------------------------------------------------------------------ special exact values (leads of modulus 1, monomial divisors, 0 / 1 / -1 in every position)
+type Cx = (f64, f64);
+fn hexparts(v: &[Cx]) -> (Value, Value) { (hexvec(&v.iter().map(|c| c.0).collect::<Vec<f64>>()), hexvec(&v.iter().map(|c| c.1).collect::<Vec<f64>>())) }
+/// leading coefficients of modulus exactly (or within rounding) 1
+fn unit_leads() -> Vec<Cx> { vec![(0.0, 1.0), (0.0, -1.0), (-1.0, 0.0), (1.0, 0.0), (0.6, 0.8), (-0.8, 0.6), (5.0 / 13.0, 12.0 / 13.0)] }
+/// reference division over Gaussian integers for a unit leading coefficient (generator side): all intermediates small?
+fn gauss_division_is_small(u: &[(i64, i64)], v: &[(i64, i64)]) -> bool {
+    let mul = |a: (i128, i128), b: (i128, i128)| (a.0 * b.0 - a.1 * b.1, a.0 * b.1 + a.1 * b.0);
+    let mut r: Vec<(i128, i128)> = u.iter().map(|c| (c.0 as i128, c.1 as i128)).collect();
+    let vv: Vec<(i128, i128)> = v.iter().map(|c| (c.0 as i128, c.1 as i128)).collect();
+    let dv = vv.len() - 1; let lc = vv[dv]; let inv = (lc.0, -lc.1);                      // 1/lc = conj(lc) for a unit
+    let lim = (NMAX / 4) as i128;
+    while r.len() > dv && r.iter().any(|x| *x != (0, 0)) {
+        let dr = r.len() - 1; let t = mul(r[dr], inv);
+        if t.0.abs() >= lim || t.1.abs() >= lim { return false; }
+        for j in 0..=dv { let m = mul(t, vv[j]); let x = (r[dr - dv + j].0 - m.0, r[dr - dv + j].1 - m.1); if x.0.abs() >= lim || x.1.abs() >= lim { return false; } r[dr - dv + j] = x; }
+        r.pop();
+        while r.len() > 1 && r[r.len() - 1] == (0, 0) { r.pop(); }
+    }
+    true
+}
+/// force 0, 1 or -1 into the constant, an inner or the leading position (the leading one never 0)
+fn special_i(rng: &mut StdRng, v: &mut Vec<i64>, k: usize, keep_lead: bool) {
+    let n = v.len(); if n == 0 { return; }
+    let pos = match k % 3 { 0 => 0, 1 => n - 1, _ => rng.gen_range(0..n) };
+    if pos == n - 1 && keep_lead { return; }
+    let val = [1i64, -1, 0][rng.gen_range(0..3)];
+    v[pos] = if pos == n - 1 && val == 0 { 1 } else { val };
+}
+fn special_f(rng: &mut StdRng, v: &mut Vec<f64>, k: usize) {
+    let n = v.len(); if n == 0 { return; }
+    let pos = match k % 3 { 0 => 0, 1 => n - 1, _ => rng.gen_range(0..n) };
+    let val = [1.0f64, -1.0, 0.0][rng.gen_range(0..3)];
+    v[pos] = if pos == n - 1 && val == 0.0 { -1.0 } else { val };
+}
+
+fn gen_special(quick: bool, rng: &mut StdRng, out: &mut Out, push: &mut dyn FnMut(&mut Out, Value)) {
+    let reps = if quick { 1 } else { 6 };
+    let gi = |rng: &mut StdRng, len: usize, lim: i64| -> Vec<(i64, i64)> { (0..len).map(|_| (rng.gen_range(-lim..=lim), rng.gen_range(-lim..=lim))).collect() };
+    let units: [(i64, i64); 4] = [(0, 1), (0, -1), (1, 0), (-1, 0)];
+    // (s1) Complex<f64>, Gaussian-integer data, divisor lead a unit 1, -1, i, -i: exact (kind gexact); every (len u, len v)
+    for lu in 0..=11usize { for lv in 1..=7usize { for rep in 0..reps {
+        let lead = units[(lu + lv + rep) % 4];
+        let mut done = false;
+        for attempt in 0..300 {
+            let lim = if attempt < 80 { 9 } else if attempt < 160 { 4 } else if attempt < 240 { 2 } else { 1 };
+            let u = gi(rng, lu, lim); let mut v = gi(rng, lv, lim); v[lv - 1] = lead;
+            // monomial divisor (all lower coefficients exactly zero) every third case
+            if (lu + 2 * lv + rep) % 3 == 0 { for k in 0..lv - 1 { v[k] = (0, 0); } }
+            if gauss_division_is_small(&u, &v) {
+                push(out, json!({"ty": "cxg", "u": u.iter().map(|c| c.0).collect::<Vec<i64>>(), "ui": u.iter().map(|c| c.1).collect::<Vec<i64>>(),
+                                 "v": v.iter().map(|c| c.0).collect::<Vec<i64>>(), "vi": v.iter().map(|c| c.1).collect::<Vec<i64>>()}));
+                done = true; break;
+            }
+        }
+        if !done { eprintln!("TOOL-ERROR polydiv gen: no small Gaussian case for lengths {} {}", lu, lv); std::process::exit(2); }
+    } } }
+    // (s2) Complex<f64>, divisor lead of modulus 1 (i, -i, -1, 1, (3+4i)/5, (-4+3i)/5, (5+12i)/13), float check; lower coefficients of v:
+    //      Gaussian integers / general floats / all zero (monomial); dividend Gaussian integers or general floats
+    for (li, lead) in unit_leads().iter().enumerate() { for lv in 1..=7usize { for style in 0..3usize { for rep in 0..reps {
+        let lu = [lv + 2, 11, lv, (lv + 5).min(11), 1][(li + lv + style + rep) % 5];
+        let u: Vec<Cx> = (0..lu).map(|_| if (style + rep) % 2 == 0 { (rng.gen_range(-9..=9i64) as f64, rng.gen_range(-9..=9i64) as f64) } else { (general(rng, 1.0), general(rng, 1.0)) }).collect();
+        let mut v: Vec<Cx> = (0..lv).map(|_| match style { 0 => (rng.gen_range(-9..=9i64) as f64, rng.gen_range(-9..=9i64) as f64), 1 => (general(rng, 1.0), general(rng, 1.0)), _ => (0.0, 0.0) }).collect();
+        v[lv - 1] = *lead;
+        let (ur, ui) = hexparts(&u); let (vr, vi) = hexparts(&v);
+        push(out, json!({"ty": "cx", "u": ur, "ui": ui, "v": vr, "vi": vi}));
+    } } } }
+    // (s3) monomial divisors c*x^m, m = 0 .. deg u + 3 (constant divisors with float dividends included)
+    for lu in [1usize, 3, 6, 11] { for m in 0..=(lu + 2).min(9) { for rep in 0..reps {
+        let uf: Vec<f64> = (0..lu).map(|_| general(rng, [0.0, 1.0, 3.0][(m + rep) % 3])).collect();
+        for c in [1.0f64, -1.0, general(rng, 1.0)] { let mut v = vec![0.0f64; m + 1]; v[m] = c; push(out, json!({"ty": "f64", "u": hexvec(&uf), "v": hexvec(&v)})); }
+        let uc: Vec<Cx> = (0..lu).map(|_| (general(rng, 1.0), general(rng, 1.0))).collect();
+        for c in [(0.0, 1.0), (0.0, -1.0), (0.6, 0.8), (general(rng, 1.0), general(rng, 1.0))] {
+            let mut v: Vec<Cx> = vec![(0.0, 0.0); m + 1]; v[m] = c; let (ur, ui) = hexparts(&uc); let (vr, vi) = hexparts(&v);
+            push(out, json!({"ty": "cx", "u": ur, "ui": ui, "v": vr, "vi": vi})); }
+        let ui_: Vec<i64> = int_coeffs(rng, lu, 9);
+        for (k, c) in [1i64, -1, 2, -2].iter().enumerate() { let mut v = vec![0i64; m + 1]; v[m] = *c; push(out, json!({"ty": if (k + m + rep) % 2 == 0 { "rat" } else { "f64x" }, "u": ui_, "v": v})); }
+    } } }
+    // (s4) the special values 0, 1, -1 in the constant / an inner / the leading position of u and of v
+    for lu in 1..=11usize { for lv in 1..=7usize { for rep in 0..reps {
+        let k = lu + lv + rep;
+        // general floats
+        let mut u: Vec<f64> = (0..lu).map(|_| general(rng, 1.0)).collect(); let mut v: Vec<f64> = (0..lv).map(|_| general(rng, 1.0)).collect();
+        special_f(rng, &mut u, k); special_f(rng, &mut v, k / 3);
+        if v[lv - 1] == 0.0 { v[lv - 1] = 1.0; }
+        if k % 2 == 0 { push(out, json!({"ty": "f64", "u": hexvec(&u), "v": hexvec(&v)})); }
+        else { let ui: Vec<f64> = (0..lu).map(|_| general(rng, 1.0)).collect(); let mut vi: Vec<f64> = (0..lv).map(|_| general(rng, 1.0)).collect();
+               if v[lv - 1].abs() == 1.0 { vi[lv - 1] = 0.0; }                      // lead exactly +-1 also for the complex type
+               push(out, json!({"ty": "cx", "u": hexvec(&u), "ui": hexvec(&ui), "v": hexvec(&v), "vi": hexvec(&vi)})); }
+        // exact integers
+        for attempt in 0..300 {
+            let lim = if attempt < 100 { 9 } else if attempt < 200 { 3 } else { 1 };
+            let mut ue = int_coeffs(rng, lu, lim); let mut ve = int_coeffs(rng, lv, lim);
+            ve[lv - 1] = [1i64, -1][rng.gen_range(0..2)];
+            special_i(rng, &mut ue, k, false); special_i(rng, &mut ve, k / 3, true);
+            let ur: Vec<Rat> = ue.iter().map(|x| Rat::int(*x)).collect(); let vr: Vec<Rat> = ve.iter().map(|x| Rat::int(*x)).collect();
+            if division_is_small(&ur, &vr) { push(out, json!({"ty": if k % 2 == 0 { "f64x" } else { "rat" }, "u": ue, "v": ve})); break; }
+        }
+    } } }
 }
